@@ -27,6 +27,13 @@ GROUPS = {
     'SrcMetric': dict(gen=['SrcMetric'], modules=['MV.Props.TieMetric'], kernels=['beats', 'compl', 'cshift'], driver='Src2'),
 }
 HELPERS = ['MV.Lemmas.PyTie', 'MV.Lemmas.TieDurLemmas']
+import srcgroups
+PLUGIN_KERNELS = {}
+for _pl in srcgroups.load():            # plug-in groups (harness/srcgroups/*.py)
+    GROUPS[_pl.NAME] = _pl.TIE
+    HELPERS += [h for h in getattr(_pl, 'HELPERS', []) if h not in HELPERS]
+    for _k in _pl.TIE['kernels']:
+        PLUGIN_KERNELS[_k] = _pl
 
 
 def _scale(rng):
@@ -49,6 +56,8 @@ def cases(rng, kernel, n):
     import musiclang.write.pitches.pitches_utils as PU
     from musiclang import Note, Tonality
     out = []
+    if kernel in PLUGIN_KERNELS:
+        return PLUGIN_KERNELS[kernel].cases(rng, kernel, n)
     if kernel in ('relup', 'reldown'):
         f = PU.relative_scale_up_value if kernel == 'relup' else PU.relative_scale_down_value
         for i in range(n):
